@@ -546,6 +546,50 @@ class FakeSock:
         return ("127.0.0.9", 40000)
 
 
+class FakeSctpSock(FakeSock):
+    """what bromelia's SctpConnection / SctpClient use of a pysctp `sctpsocket_tcp`: blocking connect(), sctp_send(),
+    sctp_recv() -> (fromaddr, flags, data, notification), get_status().state"""
+
+    def connect(self, addr):
+        self.sim._yield(("sock.connect",))
+        if self.refused:
+            raise ConnectionRefusedError(111, "Connection refused")
+
+    def sctp_send(self, data):
+        return self.send(data)
+
+    def sctp_recv(self, n):
+        return (("127.0.0.2", 3870), 0, self.recv(n), None)
+
+    def get_status(self):
+        return types.SimpleNamespace(state=1, state_ESTABLISHED=1)
+
+
+class FakeSctpModules:
+    """`import sctp` / `import _sctp` as seen by bromelia.transport while the scenario runs"""
+
+    def __init__(self, factory):
+        self.factory = factory
+
+    def __enter__(self):
+        import sys
+        self.saved = {k: sys.modules.get(k) for k in ("sctp", "_sctp")}
+        m = types.ModuleType("sctp")
+        m.sctpsocket_tcp = lambda *a, **k: self.factory()
+        m2 = types.ModuleType("_sctp")
+        m2.getconstant = lambda name: 132
+        sys.modules["sctp"], sys.modules["_sctp"] = m, m2
+        return self
+
+    def __exit__(self, *a):
+        import sys
+        for k, v in self.saved.items():
+            if v is None:
+                sys.modules.pop(k, None)
+            else:
+                sys.modules[k] = v
+
+
 def install(sim, modules, socket_factory=None):
     """rebinds threading/queue/time/selectors (and socket, when a factory is given) in the given bromelia modules;
     returns the substituted namespaces and an undo function"""
